@@ -6,6 +6,24 @@ NOTES = ("Every check: TLC model-checks the module's design on small constants, 
 NOT_APPLICABLE = {}
 SUSPENDED = {"C17": "temporarily unclaimed: FzfBind is being updated to mirror the parseActionList fix 6946a78 (stricter rejection)"}
 CHECKS = {
+    "C20": {
+        "text": "FzfPreview.tla models the previewer: UI actions, render loop refresh (try-send cancel on the unbuffered killChan, then "
+                "overwrite the one-slot previewBox), previewer pick/start/reap, reader/ticker display, watcher select / "
+                "previewCancelWait delay / kill / ctx.Done, finite and never-ending commands, exit path and process exit. The try-"
+                "send is modelled exactly (taken iff the watcher is in its select). TLC checks all interleavings of <=4 user actions "
+                "(3.9 M states) for at-most-one-alive, convergence at quiescence, no survivor after exit and liveness on deviation-"
+                "free behaviours; the deviation configs keep counterexamples for LostCancel, LostKillAtExit and StaleAfterShow. "
+                "Recorded sessions of the real binary under tmux, whose preview commands log their own invocation and hold a session "
+                "lock, are validated by Trace_Preview: seeded histories of moves, edits, toggles, toggle/refresh/change-preview fired "
+                "at previewer events, plus directed schedules for TLC's counterexamples. Every pv.* event must be an enabled step; at "
+                "quiescence the LOG, /proc scan, GET / and captured window are checked; after abort/accept/SIGTERM a second /proc scan.",
+        "design_ref": "DESIGN.md §6 C20, §9 F6, Appendix B.3",
+        "note": "SIGHUP/SIGKILL of fzf are not exits the property speaks of. Nothing is claimed while the preview window is hidden. "
+                "Placeholder quoting is C12's subject. No in-package gates; process-level schedules instead. The untimed model does "
+                "not distinguish instant from slow commands. A 'hung' previewer is given up after 30 s. Removal of killPreview at exit "
+                "is only partly distinguishable from the known F6 survivor. Trusted: TLC, hook placement, /proc marker scan, tmux.",
+        "technique": "TLA+ spec + TLC exhaustive MC with liveness; named deviation actions with kept counterexamples; TLC trace validation of recorded real sessions with external observations",
+    },
     "C16": {
         "text": "FzfServer.tla (atom-level byte streams; connection state machine Arrive/CloseEarly/SeeEOF/Scan/Finish; Respond; "
                 "action-list grammar; start rule) is model-checked over 2.5k request shapes x keys under every framing and early "
